@@ -63,6 +63,22 @@ class Frame:
     def group_by(self, g):
         return GroupBy(self, g)
 
+    def join(self, other, on=None, how="inner", **kw):
+        """data.join(data.group_by(g).agg(alias = col.mean(), ...), on=g, how="left"): every row receives the means of its
+        own group.  Recorded as the equivalent window step  alias := mean(col) over the partition of g  (a relational
+        identity: the right-hand table has exactly one row per value of g; rows with a null key aside)."""
+        if kw or how != "left" or not isinstance(other, Frame) or other.steps[:-1] != self.steps or not other.steps:
+            raise Stop("join shape")
+        last = other.steps[-1]
+        if last[0] != "aggregate" or last[1] is None or last[1] != on:
+            raise Stop("join: right-hand side is not group_by(on).agg(...)")
+        defs = {}
+        for alias, e in last[2].items():
+            if not (isinstance(e, E) and e.op == "mean" and e.args[0].op == "col"):
+                raise Stop("join: aggregated column is not a plain mean")
+            defs[alias] = E("over", e, on)
+        return Frame(self.steps + [("with_columns", defs)])
+
     def collect(self):
         raise Stop(self)
 
